@@ -530,7 +530,7 @@ def run(ctx):
         for chunk in range(0, len(calls), 4):
             ck.to_taxa_case("default-to_taxa", src, None, calls[chunk:chunk + 4], f"default-{chunk}")
         # -- custom taxonomies
-        n_custom = 500 if quick else 5000
+        n_custom = 500 if quick else 15000
         for k in range(n_custom):
             text, pool = gen_custom(rng, k)
             path = ck.write(text)
